@@ -4,6 +4,7 @@ package sim
 
 import (
 	"fmt"
+	"os"
 	"strings"
 
 	"connectrpc.com/connect"
@@ -54,8 +55,18 @@ type baseGen struct {
 	rejects int
 }
 
+// deepMode (thorough tier): larger module graphs, more segments, more workers.
+var deepMode = os.Getenv("SIM_DEEP") == "1"
+
 func genBase(r *Rng, o GenOpts, first uint64) *baseGen {
 	b := &baseGen{}
+	if deepMode && r.Chance(1, 3) {
+		if o.MinMods == 0 {
+			o.MinMods, o.MaxMods = 3, 7
+		}
+		o.MaxMods += 4
+		o.MinMods++
+	}
 	b.seg = uint64(r.Range(2, 12))
 	if len(o.InitChoices) == 0 {
 		ic := []uint64{0}
@@ -136,6 +147,9 @@ func genReq(r *Rng, b *baseGen, pkg *PkgDef, output string, first uint64) ReqSpe
 	}
 	if r.Chance(1, 6) {
 		q.FinalOnly = true
+	}
+	if r.Chance(1, 10) && (q.Final != 0 || !q.Prod) {
+		q.Stop = 0 // open-ended: runs until the chain has no more blocks
 	}
 	return q
 }
@@ -320,7 +334,13 @@ func (c *stratChecker) AfterRequest(x *Exec, idx int, h *HistItem, res *RunResul
 	if ref.FailedAt != nil {
 		failBlock = ref.FailedAt
 	}
-	if res.HasErr && !interrupted {
+	openEnded := false
+	if res.HasErr && !interrupted && h.Req.Stop == 0 && strings.Contains(res.Err.Error(), "unexpected EOF") && (failBlock == nil || *failBlock > x.Chain.Head) {
+		// open-ended request: the simulated chain has no more blocks (a real stream would wait for the next one)
+		openEnded = true
+		x.Probe("open_ended_request_reached_chain_head")
+	}
+	if res.HasErr && !interrupted && !openEnded {
 		if failBlock == nil || *failBlock >= h.Req.Stop && h.Req.Stop != 0 {
 			return viol(prop, "unexpected_error", "request %d failed although no module fails in its range: code=%s err=%v", idx, codeName(res.Code), res.Err)
 		}
@@ -339,10 +359,21 @@ func (c *stratChecker) AfterRequest(x *Exec, idx int, h *HistItem, res *RunResul
 		return viol(prop, "no_session", "no SessionInit message")
 	}
 	ex := StreamExpect{Start: res.Session.ResolvedStartBlock, Stop: h.Req.Stop, Handoff: res.Session.LinearHandoffBlock, Prod: h.Req.Prod, FailBlock: failBlock}
+	if h.Req.Stop == 0 {
+		ex.OpenEnd = x.Chain.Head + 1
+		if h.Req.FinalOnly {
+			// the last blocks of the simulated chain never become final
+			if ex.OpenEnd > x.Chain.ConfDepth {
+				ex.OpenEnd -= x.Chain.ConfDepth
+			} else {
+				ex.OpenEnd = 0
+			}
+		}
+	}
 	if ex.Start != uint64(h.Req.Start) && h.Req.Cursor == "" {
 		return viol(prop, "wrong_start", "resolved start %d, requested %d", ex.Start, h.Req.Start)
 	}
-	complete := !interrupted && !res.HasErr
+	complete := !interrupted && (!res.HasErr || openEnded)
 	if v := CheckStream(prop, pkg, ref, res, ex, complete); v != nil {
 		return v
 	}
